@@ -352,6 +352,7 @@ def run(chk):
     _spliceform_rule(chk, prog)
     _cmpnum_rule(chk, prog)
     _ownresult_rule(chk, prog)
+    _neqdual_rule(chk, prog)
     # (= nil x) / (not= nil x) compiled inline by `if` / `while` must agree with the functions = and not=
     from rules.c02 import _nilfold_rule
     _nilfold_rule(chk, prog, rule="C15-NILFOLD")
@@ -927,3 +928,45 @@ def _ownresult_rule(chk, prog):
         else:
             chk.ok(rule, "%s returns a slot of its own" % fn.name)
     chk.floor(rule, 25, n)
+
+
+def _neqdual_rule(chk, prog):
+    """(not= x K) with a small integer literal is compiled to its own opcode.  Whatever (= x K) answers, it must answer
+    the opposite - for every x, numbers or not.  The two handlers are each one boolean expression over the same two
+    facts (x is a number; its value equals the literal); the second has to be the exact complement of the first
+    (De Morgan: the negated type test, the dual connective, the dual comparison)."""
+    from jv.vm import VMHandlers
+    rule = "C15-NEQDUAL"
+    chk.rule(rule, "the handler of JOP_NOT_EQUALS_IMMEDIATE computes the exact complement of the handler of JOP_EQUALS_IMMEDIATE")
+    vm = VMHandlers(prog)
+    shapes = {}
+    for x in vm.fn.nodes:
+        h = vm.handler_of(x)
+        if h not in ("label_JOP_EQUALS_IMMEDIATE", "label_JOP_NOT_EQUALS_IMMEDIATE"):
+            continue
+        if x.k == "bin" and x.op in ("&&", "||") and not (x.parent is not None and x.parent.k == "bin" and x.parent.op in ("&&", "||")):
+            cmps = [y for y in x.kids[1].walk() if y.k == "bin" and y.op in ("==", "!=") and any((z.t or "") == "double" for z in y.kids)]
+            if not cmps:
+                continue
+            l = x.kids[0]
+            while l.k in ("paren", "cast") and l.kids:
+                l = l.kids[0]
+            neg = l.k == "un" and l.op == "!"
+            # keep the outermost such expression of the handler
+            cur = shapes.get(h)
+            if cur is None or len(list(x.walk())) > cur[3]:
+                shapes[h] = (neg, x.op, cmps[0].op, len(list(x.walk())), x)
+    if len(shapes) < 2:
+        raise AnalysisBroken("run_vm: the handlers of the (not-)equals-immediate opcodes were not recognised (%s)" % sorted(shapes))
+    chk.instance(rule)
+    chk.analysed(vm.fn)
+    eq, ne = shapes["label_JOP_EQUALS_IMMEDIATE"], shapes["label_JOP_NOT_EQUALS_IMMEDIATE"]
+    want = (not eq[0], "||" if eq[1] == "&&" else "&&", "!=" if eq[2] == "==" else "==")
+    if ne[:3] == want:
+        chk.ok(rule, "equals: %s number %s value %s literal; not-equals is its complement" % ("not a" if eq[0] else "a", eq[1], eq[2]))
+    else:
+        chk.violation(rule, "vm.c", "run_vm", "JOP_NOT_EQUALS_IMMEDIATE", ne[4].loc,
+                      "JOP_EQUALS_IMMEDIATE computes (%snumber %s value %s literal) but JOP_NOT_EQUALS_IMMEDIATE computes (%snumber %s value %s literal), "
+                      "which is not its complement: for an operand that is not a number both answer false, so inline (not= nil 0) is false while "
+                      "the function form is true" % ("not " if eq[0] else "", eq[1], eq[2], "not " if ne[0] else "", ne[1], ne[2]))
+    chk.floor(rule, 1)
